@@ -1,6 +1,7 @@
 /- Line-protocol driver: one case per input line, one canonical answer line per case. -/
 import Dblib.Model.PacketQueueDriver
 import Dblib.Model.Isolation
+import Dblib.Model.Codec.All
 import Dblib.Model.ChanTxDriver
 import Dblib.Model.Decimal
 import Dblib.Model.Dsn
@@ -13,6 +14,7 @@ def handle (line : String) : String :=
   match words line with
   | "pq" :: args => PQ.run args
   | "iso" :: args => Isolation.run args
+  | "pkg" :: args => Codec.run args
   | "tx" :: args => Tx.run args
   | "dec" :: args => Decimal.run args
   | "dsn" :: args => Dsn.run args
